@@ -1,10 +1,10 @@
 package main
 
 import (
-	"sync/atomic"
 	"bytes"
 	"fmt"
 	"strconv"
+	"sync/atomic"
 
 	"github.com/jimlambrt/gldap"
 
